@@ -19,6 +19,27 @@ def l21_error_exact(Mq, inv_bits, n):
     return float(tot)
 
 
+def l21_error_f64(m_bits, inv_bits, n):
+    """the error exactly as the routine evaluates it in binary64: (inverse*M - 1) with row-by-column accumulation
+    from 0.0, then sum over columns of sqrt(sum of squares)"""
+    M = [b2f(v) for v in m_bits]
+    I = [b2f(v) for v in inv_bits]
+    res = 0.0
+    Z = [[0.0] * n for _ in range(n)]
+    for r in range(n):
+        for c in range(n):
+            acc = 0.0
+            for k in range(n):
+                acc = acc + I[r * n + k] * M[k * n + c]
+            Z[r][c] = acc - (1.0 if r == c else 0.0)
+    for j in range(n):
+        vn = 0.0
+        for i in range(n):
+            vn = vn + Z[i][j] * Z[i][j]
+        res = res + math.sqrt(vn)
+    return res
+
+
 def special_cases():
     out = []
     for tol in [None, 1e-5]:
@@ -81,6 +102,11 @@ def run(rep, rng, tier, replay=None):
             tols = [1e-5, 1e-30]
             if err is not None and math.isfinite(err) and err > 0:
                 tols += [err * 0.5, err * 2.0]
+            ferr = l21_error_f64(c["m"], pm["inverse"], n)
+            if math.isfinite(ferr) and ferr > 0:
+                # tolerances around the error as the routine itself evaluates it: inside the window between the
+                # Frobenius and the L21 norm, exactly at the error (<= vs <), and one ulp on either side
+                tols += [ferr * 0.6, ferr * 0.8, ferr * 0.95, ferr, math.nextafter(ferr, 0.0), math.nextafter(ferr, math.inf)]
             for t in tols:
                 cases.append(dict(c, stability=f2b(t)))
         else:
@@ -103,6 +129,9 @@ def run(rep, rng, tier, replay=None):
                     rep.violation("correspondence", "; ".join(msgs[:2]), case=c)
         if fi["tag"] == "panic":
             rep.violation("property", "decompose_for_tropical panicked: %s" % fi["why"][:150], case=c, failing_input=True)
+        if fi["tag"] == "MatrixError(Unstable)" or fi["tag"] == "Unstable":
+            # soundness in the other direction is not part of C16, but an Unstable verdict with an error that passes is a sign the norm changed
+            pass
         if fi["tag"] != "ok":
             continue
         # --- the property on an Ok result
@@ -115,6 +144,13 @@ def run(rep, rng, tier, replay=None):
             if has_nan:
                 rep.violation("property", "stability test enabled (tol %r) but a decomposition containing NaN is returned as Ok" % tol, case=c, failing_input=True,
                               what="NaN decomposition returned as Ok with the stability test on")
+            if not has_nan and all(math.isfinite(b2f(v)) for v in allf + c["m"]):
+                ferr = l21_error_f64(c["m"], fi["inverse"], n)
+                if ferr > tol:
+                    rep.violation("property", "Ok returned although the L21 distance |inverse*M - 1|, evaluated in binary64 as the routine does, "
+                                  "is %r > tolerance %r" % (ferr, tol), case=c, failing_input=True, what="stability test lets a too large error pass")
+            if False:
+                pass
             elif all(math.isfinite(b2f(v)) for v in allf + c["m"]):
                 Mq = [[Fr(b2f(c["m"][i * n + j])) for j in range(n)] for i in range(n)]
                 err = l21_error_exact(Mq, fi["inverse"], n)
